@@ -45,6 +45,12 @@
 #include "../src/auth/basic/Config.cc"
 #include "hcommon.h"
 
+// the four symbols of main.cc (not linked: it has main()) that the rest of the squid objects reference
+bool Chrooted = false;
+void reconfigure(int) {}
+void rotate_logs(int) {}
+void shut_down(int) {}
+
 static Auth::Basic::Config *theBasicConfig = nullptr;
 
 static void basicSetup() {
